@@ -98,7 +98,7 @@ def _svalue(call, D, form):
 #        0d (zero-dimensional array for a single trace), ro / strided (storage of the shift vector), near (float64 one or two
 #        units in the last place off the value, towards / away from zero with k)
 #   dc=  the sub-Nyquist test signal has a non-zero mean, different on every trace
-W_STORE = ("c", "ro", "strided", "f", "offset")
+W_STORE = ("c", "ro", "strided", "f", "offset", "be")
 CALL_FORMS = ("kw", "pos", "default", "skw", "ns", "freq")
 S_FORMS = ("", "npint", "f4", "0d", "ro", "strided", "near")
 
@@ -142,6 +142,8 @@ def _store(x, how):
         if x.ndim == 1:
             return x[::-1].copy()[::-1], None
         return np.asfortranarray(x), None
+    if how == "be":
+        return x.astype(x.dtype.newbyteorder("S")), None      # the other byte order (data mapped from a big-endian file)
     return x, None
 
 
@@ -181,12 +183,15 @@ def _oshape(out):
         return [-1]
 
 
-def _odtype(out):
+def _odtype(out, like=None):
     """the name the trace records for the element type of a returned value: 'f4' / 'f8' for float32 / float64 *arrays*, else a
-    description that equals no dtype name (the property promises an array of the dtype of the input)"""
+    description that equals no dtype name (the property promises an array of the dtype of the input). `like`: the dtype of the
+    array handed in - its byte order is part of it (seed round i: float32 read from a big-endian file came back little-endian)"""
     if not isinstance(out, np.ndarray):
         return "not an ndarray (" + type(out).__name__[:40].replace('"', "").replace("\\", "") + ")"
-    return DTNAME.get(out.dtype) or str(out.dtype).replace('"', "").replace("\\", "")[:60]
+    if like is not None and out.dtype != like and out.dtype.newbyteorder("=") == like.newbyteorder("="):
+        return f"byte order changed: {out.dtype.str} for {like.str}".replace('"', "")
+    return DTNAME.get(out.dtype.newbyteorder("=")) or str(out.dtype).replace('"', "").replace("\\", "")[:60]
 
 
 def _values(out, shape):
@@ -266,7 +271,8 @@ def fshift_experiment(n, ntr, axis, dt, D, calls, form=0, basis=True, seed=0, va
         if how == "freq":
             W = scipy.fft.rfft(cur, axis=axis)
             out = fshift(W, sa, axis=ax_arg, ns=n)
-            return scipy.fft.irfft(out, n, axis=axis)
+            back = scipy.fft.irfft(out, n, axis=axis)       # the transforms are the harness's: so is the byte order of their result
+            return back.astype(cur.dtype, copy=False) if back.dtype.newbyteorder("=") == cur.dtype.newbyteorder("=") else back
         if how == "pos":
             return fshift(cur, sa, ax_arg)
         if how == "default" and last:
@@ -304,8 +310,8 @@ def fshift_experiment(n, ntr, axis, dt, D, calls, form=0, basis=True, seed=0, va
                 obs[ic]["untouched"] = False
             if _oshape(out) != list(shape) and obs[ic]["oshape"] == list(shape):      # sticky once wrong
                 obs[ic]["oshape"] = _oshape(out)
-            if _odtype(out) != dt and obs[ic]["odtype"] == dt:
-                obs[ic]["odtype"] = _odtype(out)
+            if _odtype(out, keep.dtype) != dt and obs[ic]["odtype"] == dt:
+                obs[ic]["odtype"] = _odtype(out, keep.dtype)
             outs.append(out)
             if not isinstance(out, np.ndarray):
                 break           # nothing a caller could hand to the next call as "the shifted array" (recorded above)
@@ -621,6 +627,7 @@ def replay_roll_case(c, dt, seed=0):
         elif how == 4:                                        # frequency-domain form
             y = scipy.fft.irfft(fshift(scipy.fft.rfft(x, axis=c["axis"]), s, axis=c["axis"], ns=shape[c["axis"]]),
                                 shape[c["axis"]], axis=c["axis"])
+            y = y.astype(x.dtype, copy=False) if y.dtype.newbyteorder("=") == x.dtype.newbyteorder("=") else y   # the transforms are the harness's
         else:
             y = fshift(x, s, axis=c["axis"])
     except Exception as ex:  # noqa
